@@ -23,34 +23,129 @@ pub struct Stats {
     pub ops: HashMap<String, u64>,
 }
 
-/// What the harness itself tracks (from the real object's outputs) to keep replays inside the
-/// environment contract and to decide when a shadow object is spawned.
-struct Track {
-    conn: &'static str, // disc | connecting | connected
-    ever_closed: bool,
-    armed: BTreeSet<String>,
-    pidmap: HashMap<i64, i64>,
-    pidmap_f: HashMap<i64, i64>,
+/// What the harness itself tracks (from the real object's outputs) to keep replays and random
+/// histories inside the environment contract and to decide when a shadow object is spawned.
+pub struct Track {
+    pub role: String,
+    pub idw: i64,
+    pub ver: String,
+    pub conn: &'static str, // disc | connecting | connected
+    pub client: bool,
+    pub tr: bool,
+    pub close_req: bool,
+    pub partial: bool,
+    pub ever_closed: bool,
+    pub nconn: usize,
+    pub persistent: bool,
+    pub armed: BTreeSet<String>,
+    pub held: Vec<i64>,
+    pub awaiting: std::collections::BTreeMap<i64, String>,
+    pub in_un: BTreeSet<i64>,
+    pub handled: BTreeSet<i64>,
+    pub sub: BTreeSet<i64>,
+    pub stored_pubs: Vec<i64>,
+    pub peer_tam: i64,
+    pub own_tam: i64,
+    pub pidmap: HashMap<i64, i64>,
+    pub pidmap_f: HashMap<i64, i64>,
+}
+
+impl Track {
+    fn new(c0: &Call) -> Track {
+        Track {
+            role: c0.role.clone(), idw: c0.idw, ver: c0.ver.clone(), conn: "disc", client: false, tr: false,
+            close_req: false, partial: false, ever_closed: false, nconn: 0, persistent: false,
+            armed: BTreeSet::new(), held: vec![], awaiting: Default::default(), in_un: BTreeSet::new(),
+            handled: BTreeSet::new(), sub: BTreeSet::new(), stored_pubs: vec![], peer_tam: 0, own_tam: 0,
+            pidmap: HashMap::new(), pidmap_f: HashMap::new(),
+        }
+    }
 }
 
 fn has_send(out: &[E], kind: &str, failing_connack: bool) -> bool {
     out.iter().any(|e| e.ev == "send" && e.pkt.kind == kind && (!failing_connack || e.pkt.rc != 0))
 }
 
-fn track_conn(t: &mut Track, call: &Call, out: &[E]) {
+fn track_conn(t: &mut Track, call: &Call, out: &[E], obs: &Value) {
     let recvd = |k: &str| out.iter().any(|e| e.ev == "recv" && e.pkt.kind == k);
-    if call.op == "closed" || call.op == "crash" {
+    let closed = call.op == "closed" || call.op == "crash";
+    let conn_sent = call.op == "send" && call.pkt.kind == "connect" && has_send(out, "connect", false);
+    let conn_recvd = recvd("connect");
+    let connack_ok = out.iter().find(|e| e.ev == "recv" && e.pkt.kind == "connack" && e.pkt.rc == 0).map(|e| e.pkt.clone());
+    let new_session = ((conn_sent || conn_recvd) && out.iter().any(|e| e.pkt.kind == "connect" && e.pkt.clean))
+        || connack_ok.as_ref().map(|p| !p.sp).unwrap_or(false);
+    if let Some(v) = obs.get("ver").and_then(|v| v.as_str()) {
+        t.ver = v.to_string();
+    }
+    if closed {
         t.conn = "disc";
         t.ever_closed = true;
+        t.tr = false;
+        t.close_req = false;
+        t.partial = false;
+        t.sub.clear();
+        t.in_un.clear();
+        if !t.persistent {
+            t.awaiting.clear();
+            t.handled.clear();
+        }
+        if call.op == "crash" {
+            t.held.clear();
+        }
     } else if has_send(out, "disconnect", false) || has_send(out, "connack", true) {
         t.conn = "disc";
-    } else if (call.op == "send" && call.pkt.kind == "connect" && has_send(out, "connect", false)) || recvd("connect") {
+    } else if conn_sent || conn_recvd {
         t.conn = "connecting";
-    } else if out.iter().any(|e| e.ev == "recv" && e.pkt.kind == "connack" && e.pkt.rc == 0)
+        t.client = conn_sent;
+        t.nconn += 1;
+        t.sub.clear();
+        t.in_un.clear();
+        let cp = out.iter().find(|e| e.pkt.kind == "connect").map(|e| e.pkt.clone()).unwrap();
+        t.persistent = if cp.ver == "v311" { !cp.clean } else { cp.sei > 0 };
+        if conn_sent { t.own_tam = cp.tam.max(0); t.peer_tam = 0; } else { t.peer_tam = cp.tam.max(0); t.own_tam = 0; }
+    } else if connack_ok.is_some()
         || (call.op == "send" && call.pkt.kind == "connack" && call.pkt.rc == 0 && has_send(out, "connack", false))
     {
         t.conn = "connected";
+        if let Some(p) = &connack_ok {
+            if p.sei >= 0 { t.persistent = p.sei > 0; }
+            if p.tam >= 0 { t.peer_tam = p.tam; }
+        } else if call.pkt.tam >= 0 { t.own_tam = call.pkt.tam; }
     }
+    if conn_sent || call.op == "recv" || call.op == "garbage" {
+        t.tr = true;
+    }
+    if call.op == "opt" && call.name == "offline" && call.flag { t.persistent = true; }
+    if out.iter().any(|e| e.ev == "close") { t.close_req = true; }
+    if call.op == "recv" && !call.flag { t.partial = true; }
+    if new_session { t.held.clear(); t.awaiting.clear(); t.handled.clear(); }
+    // identifiers
+    if (call.op == "acquire" || call.op == "register") && call.ok { t.held.push(call.id); }
+    let no_err = !out.iter().any(|e| e.ev == "error");
+    if call.op == "send" {
+        let p = &call.pkt;
+        if matches!(p.kind.as_str(), "publish" | "subscribe" | "unsubscribe") { t.held.retain(|x| *x != p.pid); }
+        if p.kind == "publish" && p.qos > 0 && no_err { t.awaiting.insert(p.pid, if p.qos == 2 { "pubrec".into() } else { "puback".into() }); }
+        if p.kind == "subscribe" || p.kind == "unsubscribe" { if no_err { t.sub.insert(p.pid); } }
+    }
+    for e in out {
+        if e.ev == "recv" && e.pkt.kind == "pubrec" && e.pkt.rc < 128 {
+            t.awaiting.insert(e.pkt.pid, "pubrel".into());
+        }
+    }
+    for e in out {
+        match (e.ev.as_str(), e.pkt.kind.as_str()) {
+            ("released", _) => { t.held.retain(|x| *x != e.id); t.awaiting.remove(&e.id); t.sub.remove(&e.id); }
+            ("send", "pubrel") => { t.awaiting.insert(e.pkt.pid, "pubcomp".into()); }
+            ("recv", "publish") if e.pkt.qos > 0 => { t.in_un.insert(e.pkt.pid); if e.pkt.qos == 2 { t.handled.insert(e.pkt.pid); } }
+            ("recv", "pubrel") => { t.handled.remove(&e.pkt.pid); }
+            ("send", "puback") | ("send", "pubcomp") => { t.in_un.remove(&e.pkt.pid); }
+            ("send", "pubrec") if e.pkt.rc >= 128 => { t.in_un.remove(&e.pkt.pid); t.handled.remove(&e.pkt.pid); }
+            _ => {}
+        }
+    }
+    if call.op == "send" && call.pkt.kind == "pubrel" && no_err { t.awaiting.insert(call.pkt.pid, "pubcomp".into()); }
+    t.stored_pubs = obs.get("stored").and_then(|s| s.as_array()).map(|a| a.iter().filter(|p| p["kind"] == "publish").filter_map(|p| p["pid"].as_i64()).collect()).unwrap_or_default();
     if call.op == "fire" {
         t.armed.remove(&call.k);
     }
@@ -60,6 +155,17 @@ fn track_conn(t: &mut Track, call: &Call, out: &[E]) {
         } else if e.ev == "timer_cancel" {
             t.armed.remove(&e.k);
         }
+    }
+}
+
+/// Where the next call of a history comes from: a recorded schedule or the random driver.
+pub trait Source {
+    fn next(&mut self, t: &Track, step: usize) -> Option<Call>;
+}
+pub struct VecSource(pub Vec<Call>);
+impl Source for VecSource {
+    fn next(&mut self, _t: &Track, step: usize) -> Option<Call> {
+        self.0.get(step).cloned()
     }
 }
 
@@ -163,20 +269,11 @@ fn do_call(c: &mut Box<dyn Conn>, call: &Call, pidmap: &mut HashMap<i64, i64>) -
         Err(msg) => Ok(StepOut { call, out: vec![], panic: Some(msg) }),
         Ok(Err(e)) => Err(e),
         Ok(Ok((ev, c2))) => {
-            if c2.op == "acquire" && c2.ok {
-                pidmap.insert(model_id_for_acquire(&call, model_id), c2.id);
+            if c2.op == "acquire" && c2.ok && model_id != 0 {
+                pidmap.insert(model_id, c2.id);
             }
             Ok(StepOut { call: c2, out: ev, panic: None })
         }
-    }
-}
-
-/// the identifier the model predicted for an acquire (the schedule's `id` field)
-fn model_id_for_acquire(call: &Call, model_id: i64) -> i64 {
-    if call.op == "acquire" {
-        model_id
-    } else {
-        0
     }
 }
 
@@ -187,19 +284,38 @@ fn obs_or_empty(c: &Box<dyn Conn>) -> (Value, Value) {
 }
 
 pub fn execute(trie: &mut Trie, calls: &[Call], st: &mut Stats) {
-    st.schedules += 1;
     if calls.is_empty() || calls[0].op != "new" {
+        st.schedules += 1;
         st.inapplicable += 1;
         return;
     }
-    let c0 = &calls[0];
+    let mut src = VecSource(calls.to_vec());
+    execute_from(trie, &mut src, st);
+}
+
+pub fn execute_from(trie: &mut Trie, src: &mut dyn Source, st: &mut Stats) {
+    st.schedules += 1;
+    let dummy = Track::new(&Call::of("new"));
+    let c0 = match src.next(&dummy, 0) {
+        Some(c) if c.op == "new" => c,
+        _ => {
+            st.inapplicable += 1;
+            return;
+        }
+    };
     let mut main = new_conn(&c0.role, &c0.ver, c0.idw);
     let mut shadow: Option<(&'static str, Box<dyn Conn>)> = None;
-    let mut t = Track { conn: "disc", ever_closed: false, armed: BTreeSet::new(), pidmap: HashMap::new(), pidmap_f: HashMap::new() };
+    let mut t = Track::new(&c0);
     let mut cur = 0usize;
+    let mut done: Vec<Call> = vec![c0.clone()];
     let empty_obs = json!({"vacancy": -1, "stored": [], "qos2": [], "ver": "undet"});
 
-    for (i, call) in calls.iter().enumerate() {
+    let mut i = 0usize;
+    loop {
+        let call = if i == 0 { c0.clone() } else {
+            match src.next(&t, i) { Some(c) => c, None => return }
+        };
+        let call = &call;
         *st.ops.entry(call.op.clone()).or_insert(0) += 1;
         let (mut body, key): (Value, String);
         if i == 0 {
@@ -234,7 +350,7 @@ pub fn execute(trie: &mut Trie, calls: &[Call], st: &mut Stats) {
                 // a fixed-version server that went through the same identifier-management calls
                 let mut sh = main.fresh_like(&call.pkt.ver);
                 t.pidmap_f = HashMap::new();
-                for prior in &calls[1..i] {
+                for prior in &done[1..] {
                     if matches!(prior.op.as_str(), "acquire" | "register" | "release") {
                         let _ = do_call(&mut sh, prior, &mut t.pidmap_f);
                     }
@@ -263,7 +379,7 @@ pub fn execute(trie: &mut Trie, calls: &[Call], st: &mut Stats) {
             } else {
                 ("none", vec![], o.clone(), false)
             };
-            track_conn(&mut t, &r.call, &r.out);
+            track_conn(&mut t, &r.call, &r.out, &o);
             if r.panic.is_some() {
                 st.panics += 1;
             }
@@ -277,6 +393,7 @@ pub fn execute(trie: &mut Trie, calls: &[Call], st: &mut Stats) {
                 let _ = trie.child(cur, &key, body);
                 return;
             }
+            done.push(call.clone());
         }
         if body["dig"].is_null() {
             body["dig"] = trie.nodes[cur].2.get("dig").cloned().unwrap_or(Value::Null);
@@ -288,6 +405,7 @@ pub fn execute(trie: &mut Trie, calls: &[Call], st: &mut Stats) {
                 return;
             }
         }
+        i += 1;
     }
 }
 
@@ -349,6 +467,7 @@ fn main() {
     println!(
         "{}",
         json!({"nodes": trie.len(), "leaves": trie.leaves(), "calls": st.calls, "schedules": st.schedules,
-               "inapplicable": st.inapplicable, "panics": st.panics, "nondeterministic": st.nondet, "ops": st.ops})
+               "inapplicable": st.inapplicable, "panics": st.panics, "nondeterministic": st.nondet,
+               "alternate_outcomes": trie.alternates, "ops": st.ops})
     );
 }
